@@ -243,9 +243,21 @@ def run_job(u, job, cfile, outdir, tier='quick', extra_defs=(), tag=''):
     bounded search: fixed small sizes (-D...), loops unwound instead of loop contracts, SAT back end, where
     quantifiers over constant ranges expand.  A failure found there is a concrete counterexample on the
     lowered real code and is reported; if the search finds nothing the job stays undecided (exit 2)."""
-    res = _run_job(u, job, cfile, outdir, tier, extra_defs, tag)
     fz = job.get('falsify')
-    if not fz or job.get('canary_run'):
+    if fz and job.get('canary_run'):
+        # vacuity canary of a quantified job: satisfiability of the harness assumptions is shown on the bounded
+        # instance (SAT gives a model; the SMT back end answers `unknown` on satisfiable quantified queries)
+        cj = dict(job)
+        for k in ('falsify', 'enforce', 'replace'):
+            cj.pop(k, None)
+        cj['loop_contracts'] = False
+        cj['backend'] = fz.get('backend', 'sat')
+        cj['defs'] = job.get('defs', []) + fz.get('defs', [])
+        cj['flags'] = fz.get('flags', [])
+        cj['timeout'] = fz.get('timeout', 300)
+        return _run_job(u, cj, cfile, outdir, tier, extra_defs, tag)
+    res = _run_job(u, job, cfile, outdir, tier, extra_defs, tag)
+    if not fz:
         return res
     undecided = res['status'] in ('timeout',) or (res['status'] == 'done' and res.get('cprover_status') == 'error') \
         or (res['status'] == 'error' and 'unknown' in res.get('error', ''))
